@@ -150,16 +150,29 @@ dispatch_walltime(const struct timespec *inval, int64_t delta)
 {
 	int64_t nsec;
 	if (inval) {
-		nsec = (int64_t)_dispatch_timespec_to_nano(*inval);
+		if (os_mul_overflow((int64_t)inval->tv_sec, (int64_t)NSEC_PER_SEC,
+				&nsec) || os_add_overflow(nsec, (int64_t)inval->tv_nsec,
+				&nsec)) {
+			// more than 292 years away from the epoch
+			return inval->tv_sec < 0 ? (dispatch_time_t)-2ll :
+					DISPATCH_TIME_FOREVER;
+		}
 	} else {
 		nsec = (int64_t)_dispatch_get_nanoseconds();
 	}
-	nsec += delta;
-	if (nsec <= 1) {
-		// -1 is special == DISPATCH_TIME_FOREVER == forever
+	if (os_add_overflow(nsec, delta, &nsec)) {
+		// the sum left the int64_t range in the direction of delta
 		return delta >= 0 ? DISPATCH_TIME_FOREVER : (dispatch_time_t)-2ll;
 	}
-	return (dispatch_time_t)-nsec;
+	if (nsec <= 1) {
+		// -1 is special == DISPATCH_TIME_FOREVER == forever; a sum at or
+		// before the epoch is a wall time that has already elapsed
+		return (dispatch_time_t)-2ll;
+	}
+	// range-checks the value: anything that does not fit in the wall clock
+	// encoding is DISPATCH_TIME_FOREVER, never a time on another clock
+	return _dispatch_clock_and_value_to_time(DISPATCH_CLOCK_WALL,
+			(uint64_t)nsec);
 }
 
 uint64_t
